@@ -52,6 +52,7 @@ opcodes! {
     FromRawAsDyn = "from_raw_as_dyn", "C11";
     UnsizeDyn = "unsize_dyn", "";
     ToUnion = "to_union", "C12";
+    ToUnionCross = "to_union_cross", "C12";
     Erase = "erase", "";
     Unerase = "unerase", "";
     IntoThin = "into_thin", "C10";
